@@ -100,6 +100,7 @@ func (c *Chan) Close() (err error) {
 			err = fmt.Errorf("exec error: %v", r)
 		}
 	}()
+	verifPoint(3, c, nil)
 	close(c.value)
 	return nil
 }
@@ -109,6 +110,7 @@ func (c *Chan) Capacity() int {
 }
 
 func (c *Chan) Next(ctx context.Context) (Object, bool) {
+	verifPoint(2, c, ctx)
 	select {
 	case <-ctx.Done():
 		return nil, false
@@ -116,6 +118,7 @@ func (c *Chan) Next(ctx context.Context) (Object, bool) {
 		if !ok {
 			return nil, false
 		}
+		verifAccess(c, "lastReceived", true)
 		c.lastReceived = value
 		c.rxCount++
 		return value, true
@@ -123,6 +126,7 @@ func (c *Chan) Next(ctx context.Context) (Object, bool) {
 }
 
 func (c *Chan) Entry() (IteratorEntry, bool) {
+	verifAccess(c, "lastReceived", false)
 	if c.lastReceived != nil {
 		return &Entry{
 			key:     NewInt(c.rxCount - 1),
@@ -144,6 +148,7 @@ func (c *Chan) Send(ctx context.Context, value Object) (err error) {
 			err = fmt.Errorf("exec error: %v", r)
 		}
 	}()
+	verifPoint(1, c, ctx)
 	select {
 	case <-ctx.Done():
 		return ctx.Err()
@@ -153,6 +158,7 @@ func (c *Chan) Send(ctx context.Context, value Object) (err error) {
 }
 
 func (c *Chan) Receive(ctx context.Context) (Object, error) {
+	verifPoint(2, c, ctx)
 	select {
 	case <-ctx.Done():
 		return nil, ctx.Err()
